@@ -113,7 +113,7 @@ func runConc(seed int64, nclients, nops int, size uint64, out string, shape stri
 	ct := &concTracer{txns: map[*fstxn.FsTxn][]string{}, proc: map[*fstxn.FsTxn]string{}}
 	var noise int64 = seed
 	st := r.srv.VerifState()
-	fstxn.VerifHook = func(kind int, op *fstxn.FsTxn, arg uint64) {
+	hookImpl.Store(hookFn(func(kind int, op *fstxn.FsTxn, arg uint64) {
 		if op.Fs != st {
 			return
 		}
@@ -144,7 +144,7 @@ func runConc(seed int64, nclients, nops int, size uint64, out string, shape stri
 				time.Sleep(time.Duration((n>>11)%200) * time.Microsecond)
 			}
 		}
-	}
+	}))
 	names := []string{"a", "b", "c"}
 	dirs := []string{"@4", "@5"}
 	files := []string{"@1", "@2", "@3"}
@@ -326,7 +326,7 @@ func runConc(seed int64, nclients, nops int, size uint64, out string, shape stri
 	wg.Wait()
 	close(statStop)
 	<-statDone
-	fstxn.VerifHook = nil
+	hookImpl.Store(hookFn(func(int, *fstxn.FsTxn, uint64) {}))
 	sort.Slice(hist, func(i, j int) bool { return hist[i].inv < hist[j].inv })
 	for _, ev := range hist {
 		fmt.Fprintf(w, "H %d %d %d\n", ev.client, ev.inv, ev.ret)
